@@ -38,6 +38,18 @@ func init() {
 
 var errFault = errors.New("qverif: injected I/O fault")
 
+// faultErr varies the identity of the injected error with the fault position: a plain error, an error that wraps
+// io.EOF (only io.EOF itself means end of input) and io.ErrUnexpectedEOF.
+func faultErr(k int) error {
+	switch k % 3 {
+	case 1:
+		return fmt.Errorf("qverif: connection lost: %w", io.EOF)
+	case 2:
+		return io.ErrUnexpectedEOF
+	}
+	return errFault
+}
+
 // faultReader delivers data[:k] under a chunking and then fails.
 type faultReader struct {
 	data   []byte
@@ -51,7 +63,7 @@ type faultReader struct {
 func (r *faultReader) Read(p []byte) (int, error) {
 	if r.pos >= r.k {
 		r.faults++
-		return 0, errFault
+		return 0, faultErr(r.k)
 	}
 	if len(p) == 0 {
 		return 0, nil
@@ -73,7 +85,7 @@ func (r *faultReader) Read(p []byte) (int, error) {
 	if r.mode == 3 && r.pos >= r.k {
 		// io.Reader may return the error together with the last bytes it could deliver
 		r.faults++
-		return n, errFault
+		return n, faultErr(r.k)
 	}
 	return n, nil
 }
@@ -308,6 +320,10 @@ func sqlResult(rng *rand.Rand) *memsql.Table {
 }
 
 func readSQLWith(t *memsql.Table, f memsql.Faults) (res qframe.QFrame) {
+	return readSQLWithArgs(t, f, nil)
+}
+
+func readSQLWithArgs(t *memsql.Table, f memsql.Faults, args []interface{}) (res qframe.QFrame) {
 	db := memsql.New()
 	db.Result = t
 	db.Faults = f
@@ -318,13 +334,20 @@ func readSQLWith(t *memsql.Table, f memsql.Faults) (res qframe.QFrame) {
 		return qframe.QFrame{Err: err}
 	}
 	defer tx.Rollback() //nolint
+	if args != nil {
+		return qframe.ReadSQLWithArgs(tx, args, qsql.Query("SELECT * FROM t WHERE a = ?"))
+	}
 	return qframe.ReadSQL(tx, qsql.Query("SELECT * FROM t"))
 }
 
 func c15ReadSQL(c *fw.Case) {
 	rng := c.Rng
 	t := sqlResult(rng)
-	full := readSQLWith(t, memsql.NoFaults())
+	var qargs []interface{}
+	if rng.Intn(2) == 0 {
+		qargs = []interface{}{int64(7)}
+	}
+	full := readSQLWithArgs(t, memsql.NoFaults(), qargs)
 	if full.Err != nil {
 		c.Count("inputs_rejected_fault_free", 1)
 		return
@@ -368,7 +391,7 @@ func c15ReadSQL(c *fw.Case) {
 			c.Nontrivial("ReadSQL", fmt.Sprint(t.Rows), p.name)
 		}
 		var res qframe.QFrame
-		pv, stack := fw.Guard(func() { res = readSQLWith(t, p.f) })
+		pv, stack := fw.Guard(func() { res = readSQLWithArgs(t, p.f, qargs) })
 		if pv != nil {
 			if reported < 3 {
 				c.Fail("panic:ReadSQL", "ReadSQL panicked with a driver fault at %s: %v\n%s", p.name, pv, clip(stack, 1000))
